@@ -195,6 +195,17 @@ static inline VmTrap trap_error(VmState *vm, VmResult err, const char *fmt, ...)
     return t;
 }
 
+/* An array index operand: int, or a value the type checker also accepts in index position (enum constant = its
+ * ordinal, u8).  Anything else is a type error, never "index 0". */
+static inline bool index_operand(NanoValue v, int64_t *out) {
+    switch (v.tag) {
+        case TAG_INT:  *out = v.as.i64; return true;
+        case TAG_ENUM: *out = (int64_t)v.as.enum_val; return true;
+        case TAG_U8:   *out = (int64_t)v.as.u8; return true;
+        default:       return false;
+    }
+}
+
 /* ========================================================================
  * Core Execution Engine (the "processor")
  *
@@ -1318,7 +1329,12 @@ VmTrap vm_core_execute(VmState *vm) {
                 vm_release(&vm->heap, arr);
                 return trap_error(vm, VM_ERR_TYPE_ERROR, "ARR_GET: not an array");
             }
-            int64_t idx64 = (idx_v.tag == TAG_INT ? idx_v.as.i64 : 0);
+            int64_t idx64 = 0;
+            if (!index_operand(idx_v, &idx64)) {
+                vm_release(&vm->heap, arr);
+                vm_release(&vm->heap, idx_v);
+                return trap_error(vm, VM_ERR_TYPE_ERROR, "ARR_GET: index is not an integer");
+            }
             if (idx64 < 0 || idx64 >= (int64_t)arr.as.array->length) {
                 long long alen = (long long)arr.as.array->length;
                 vm_release(&vm->heap, arr);
@@ -1342,7 +1358,13 @@ VmTrap vm_core_execute(VmState *vm) {
                 vm_release(&vm->heap, v);
                 return trap_error(vm, VM_ERR_TYPE_ERROR, "ARR_SET: not an array");
             }
-            int64_t idx64 = (idx_v.tag == TAG_INT ? idx_v.as.i64 : 0);
+            int64_t idx64 = 0;
+            if (!index_operand(idx_v, &idx64)) {
+                vm_release(&vm->heap, arr);
+                vm_release(&vm->heap, idx_v);
+                vm_release(&vm->heap, v);
+                return trap_error(vm, VM_ERR_TYPE_ERROR, "ARR_SET: index is not an integer");
+            }
             if (idx64 < 0 || idx64 >= (int64_t)arr.as.array->length) {
                 long long alen = (long long)arr.as.array->length;
                 vm_release(&vm->heap, arr);
@@ -1392,7 +1414,12 @@ VmTrap vm_core_execute(VmState *vm) {
                 vm_release(&vm->heap, arr);
                 return trap_error(vm, VM_ERR_TYPE_ERROR, "ARR_REMOVE: not an array");
             }
-            int64_t idx64 = (idx_v.tag == TAG_INT ? idx_v.as.i64 : 0);
+            int64_t idx64 = 0;
+            if (!index_operand(idx_v, &idx64)) {
+                vm_release(&vm->heap, arr);
+                vm_release(&vm->heap, idx_v);
+                return trap_error(vm, VM_ERR_TYPE_ERROR, "ARR_REMOVE: index is not an integer");
+            }
             if (idx64 < 0 || idx64 >= (int64_t)arr.as.array->length) {
                 long long alen = (long long)arr.as.array->length;
                 vm_release(&vm->heap, arr);
